@@ -49,7 +49,13 @@ def chunks(tier, seed):
             out.append({"kind": "tiny_sample", "n": 250, "key": "tiny3s%d" % k})
         for k in range(18):
             out.append({"kind": "rand", "n": 45, "key": "rand%d" % k})
+        for k in range(4):
+            out.append({"kind": "big", "style": ["serpentine", "streets", "serpentine", "streets"][k],
+                        "size": [1150, 260, 1600, 420][k], "key": "big%d" % k})
     else:
+        for k in range(10):
+            out.append({"kind": "big", "style": ["serpentine", "streets"][k % 2],
+                        "size": [1150, 260, 1600, 420, 2500, 700, 1300, 330, 2000, 900][k], "key": "big%d" % k})
         for k in range(30):
             out.append({"kind": "tiny", "max_edges": 3, "shard": k, "of": 30, "key": "tiny%d" % k})
         for k in range(30):
@@ -68,7 +74,9 @@ def floors(tier):
                         "unreachable_pair": 200, "tie": 100, "multi_vertex_geom": 500,
                         "route_zero_weight_edge": 300, "route_against_storage": 500, "route_multi_vertex_edge": 500,
                         "route_parallel_alternative": 200, "route_multi_hop": 300, "route_4plus_edges": 50 if q else 500,
-                        "nodes_10_to_12": 50 if q else 500, "edges_25_to_40": 30 if q else 300},
+                        "nodes_10_to_12": 50 if q else 500, "edges_25_to_40": 30 if q else 300,
+                        "network_of_hundreds_of_nodes": 4, "route_of_more_than_1000_hops": 2,
+                        "identifiers:digits": 100, "identifiers:int": 100},
             "distinct_nontrivial": 2000 if q else 50000}
 
 
@@ -96,6 +104,12 @@ def cases(chunk):
             else:
                 spec = G.random_graph(rng, nmin=2, nmax=12, mmax=40, geom=True)
             yield {"kind": "rand", "g": spec, "ord": rng.randrange(1 << 30)}
+    elif kind == "big":
+        # larger scale: a long street whose end-to-end route has more than a thousand hops; a street network of
+        # hundreds of nodes (requests sampled)
+        n = chunk["size"]
+        spec = G.serpentine(rng, n) if chunk["style"] == "serpentine" else G.big_graph(rng, n, 5 * n, geom=True)
+        yield {"kind": "big", "g": spec, "ord": rng.randrange(1 << 30)}
     else:
         raise M.HarnessError("unknown chunk kind %r" % kind)
 
@@ -105,6 +119,11 @@ def _spec_of(case):
         spec = G.tiny_spec(case["n"], [tuple(e) for e in case["edges"]], geom=True)
     else:
         spec = case["g"]
+    if case["kind"] == "rand" and case["ord"] % 5 in (2, 4):
+        # other legal spellings of the identifiers: the strings "1".."12" (every character of "12" is itself an
+        # identifier), Python ints
+        spec = dict(spec)
+        spec["id_style"] = "digits" if case["ord"] % 5 == 2 else "int"
     if case["ord"] % 4 == 1:
         # realistic magnitudes: the same network in projected map coordinates (its edges, a few metres to tens of
         # metres long, are tiny next to the coordinates) and with some weights of millions
@@ -220,8 +239,15 @@ def run_case(case, ctx):
     spec = _spec_of(case)
     n = spec["n"]
     A = G.arcs(spec)
-    D = G.floyd_warshall(n, A)
-    cls = G.graph_classes(spec, D)
+    big = case["kind"] == "big"
+    if big:
+        D = G.LazyRows(n, A)
+        cls = {"network_of_hundreds_of_nodes", "style:" + spec.get("style", "")}
+    else:
+        D = G.floyd_warshall(n, A)
+        cls = G.graph_classes(spec, D)
+    if spec.get("id_style"):
+        cls.add("identifiers:" + spec["id_style"])
     if n >= 10:
         cls.add("nodes_10_to_12")
     if len(spec["edges"]) >= 25:
@@ -234,10 +260,16 @@ def run_case(case, ctx):
         return violated(w, sig, True, sorted(cls))
 
     net, ids, nodes, _e = G.build_network(spec, random.Random(case["ord"] + 1) if case["ord"] % 3 == 0 else None)
-    pairs = [(s, t) for s in range(n) for t in range(n) if s != t]
     hrng = random.Random(case["ord"])
-    hrng.shuffle(pairs)
-    finite = sorted({D[a][b] for a in range(n) for b in range(n) if D[a][b] != G.INF})
+    if big:
+        ends = [(0, n - 1), (n - 1, 0), (1, n - 2), (n // 2, 0)]
+        pairs = ends + [(hrng.randrange(n), hrng.randrange(n)) for _ in range(26)]
+        pairs = [(a, b) for a, b in pairs if a != b]
+        finite = sorted({D[a][b] for a, _b in pairs[:6] for b in range(0, n, 7) if D[a][b] != G.INF})
+    else:
+        pairs = [(s, t) for s in range(n) for t in range(n) if s != t]
+        hrng.shuffle(pairs)
+        finite = sorted({D[a][b] for a in range(n) for b in range(n) if D[a][b] != G.INF})
     # the documented output_dict option: one dictionary shared by the requests of this case; for a third of the
     # cases it is filled beforehand by all_shortest_distances(output_dict=...) / prepare()
     shared = {}
@@ -255,6 +287,8 @@ def run_case(case, ctx):
             cut = hrng.choice(finite) + hrng.choice([0.0, 0.0, 0.25, -0.25]) if finite else 1.0
             kind_h = hrng.choice(["dist_cut", "dist_cut", "dist_all", "dist_pair", "sub_network", "all_pairs_cut",
                                   "failing_request"])
+            if big and kind_h in ("sub_network", "all_pairs_cut"):
+                kind_h = "dist_cut"
             if kind_h == "dist_cut":
                 hr = M.call(net.shortest_distance, ids[src], None, cut)
             elif kind_h == "dist_all":
@@ -340,9 +374,12 @@ def run_case(case, ctx):
             cls.add("route_multi_hop")
         if len(path) >= 5:
             cls.add("route_4plus_edges")
+        if len(path) > 1000:
+            cls.add("route_of_more_than_1000_hops")
+            ctx.count("route_of_more_than_1000_hops")
     # derived object: a sub-network extracted from this network (sharing its node and edge objects) answers path
     # requests for ITS graph; so does the parent afterwards
-    if n >= 2 and case["ord"] % 3 == 0 and finite:
+    if n >= 2 and case["ord"] % 3 == 0 and finite and not big:
         s0 = hrng.randrange(n)
         cutv = hrng.choice(finite + [1e300]) + 0.25
         sub = M.call(net.sub_network, ids[s0], cutv, "TOPOLOGIC", False)
